@@ -168,7 +168,7 @@ func writeObject(w io.Writer, value any) error {
 		_, err := io.WriteString(w, fmt.Sprint(values.DeepToLiquid(value)))
 		return err
 	default:
-		_, err := io.WriteString(w, fmt.Sprint(value))
+		_, err := io.WriteString(w, values.Sprint(value))
 		return err
 	}
 }
